@@ -321,6 +321,11 @@ func (d *driver) runScenario(build string, raw json.RawMessage, verbose bool) (r
 			res = &core.Result{}
 			json.Unmarshal(r["result"], res)
 		}
+		if kindOf(r) == "hang" {
+			var stacks string
+			json.Unmarshal(r["stacks"], &stacks)
+			return &core.Result{Verdict: core.Violation, Oracle: "HANG", Sig: "hang", Msg: "the run stopped making progress in real time: " + stacks}, "", nil
+		}
 	}
 	if hung {
 		return res, "", fmt.Errorf("worker hung replaying a scenario")
@@ -523,6 +528,27 @@ func (d *driver) check() int {
 					harnessErr = append(harnessErr, fmt.Sprintf("worker %d (%s) hung; last journalled seed %d", i, build, readJournal(w.journal)))
 					mu.Unlock()
 					return
+				}
+				if n := len(recs); n > 0 && kindOf(recs[n-1]) == "hang" {
+					// the worker's own watchdog: a run stopped making progress in real
+					// time (a library lock that is never released). Candidate finding.
+					var seed uint64
+					var stacks string
+					json.Unmarshal(recs[n-1]["seed"], &seed)
+					json.Unmarshal(recs[n-1]["stacks"], &stacks)
+					mu.Lock()
+					viols = append(viols, violation{res: &core.Result{Seed: seed, Verdict: core.Violation, Oracle: "HANG", Sig: "hang", Msg: "the run stopped making progress in real time: goroutines of the simulated system are blocked outside the simulator's reach (a lock that is never released?): " + stacks}, build: build})
+					mu.Unlock()
+					for idx := from; ; idx += stride {
+						if core.Mix(d.seed, idx) == seed {
+							from = idx + stride
+							break
+						}
+						if idx > from+stride*50_000_000 {
+							return
+						}
+					}
+					continue
 				}
 				if n := len(recs); n > 0 && kindOf(recs[n-1]) == "abandon" {
 					// the worker gave up on a run that does not terminate (already
@@ -944,7 +970,7 @@ func (d *driver) report(v violation) (path string, confirmed bool, err error) {
 	}
 	best, bestRes, bestCrash := raw, r, crash
 	steps := 0
-	if d.p.Shrink != nil {
+	if d.p.Shrink != nil && v.res.Oracle != "HANG" {
 		deadline := time.Now().Add(60 * time.Second)
 		tried := 0
 	outer:
